@@ -129,6 +129,13 @@ def check(run, replay=None):
                         else:
                             l_.initial_status = rng.choice([S_.Open, S_.Closed])      # check-valve pipes included
                         run.count("initial_status assigned after creation")
+                # several demand entries of one junction sharing pattern and category (as [DEMANDS] lines or skeletonize produce them)
+                for jn_ in wn.junction_name_list:
+                    dl_ = wn.get_node(jn_).demand_timeseries_list
+                    if len(dl_) >= 1 and rng.random() < 0.3:
+                        d0_ = dl_[rng.randrange(len(dl_))]
+                        dl_.append((round(rng.uniform(0.0002, 0.003), 5), d0_.pattern_name, d0_.category))
+                        run.count("duplicate (pattern, category) demand entry")
                 if rng.random() < 0.5:
                     wn.add_junction("JEMPTY", base_demand=0.0, elevation=2.0, coordinates=(1, 1))
                     wn.get_node("JEMPTY").demand_timeseries_list.clear()
